@@ -56,7 +56,9 @@ class Module:
                 k = normalise.sink_return(fn, names)
                 k += normalise.propagate_new_locals(fn, names)
                 if q in ref_tests:
-                    k += normalise.split_or_guards(fn, set(ref_tests[q]))
+                    rt = set(ref_tests[q])
+                    k += normalise.orient_tests(fn, rt)
+                    k += normalise.split_or_guards(fn, rt)
                 self.locals_propagated += k
             if self.locals_propagated:
                 normalise.flatten_else(self.tree)
@@ -624,7 +626,12 @@ def cond_facts(conds):
             out.append((unparse(t, 400), pol))
     for c in conds:
         facts(c[-2], c[-1])
-    return out
+    seen, uniq = set(), []
+    for x in out:
+        if (str(x[0]), x[1]) not in seen:
+            seen.add((str(x[0]), x[1]))
+            uniq.append(x)
+    return uniq
 
 
 def cond_holds(conds, text, value=True):
